@@ -234,9 +234,26 @@ fn main() {
             let w = work::generate(&mut rng, &env.pools, env.mode);
             println!("{}", serde_json::to_string_pretty(&w).unwrap());
         }
+        "opstime" => {
+            // development aid: sequential cost of every operation of one generated workload
+            let mode = mode_of(args.get(2));
+            let idx: u64 = args.get(3).and_then(|s| s.parse().ok()).unwrap_or(0);
+            let env = make_env(mode);
+            let mut rng = Rng::derive(env.seed, env.tag, idx);
+            let w = work::generate(&mut rng, &env.pools, env.mode);
+            for op in w.threads.iter().flatten() {
+                let t0 = Instant::now();
+                let mut one = w.clone();
+                one.threads = vec![vec![op.clone()]];
+                one.threads[0].retain(|o| !matches!(o, work::Op::Send { .. } | work::Op::Recv { .. }));
+                let r = env.refs.ensure(&one);
+                println!("{:>7.2}s {} {:?}", t0.elapsed().as_secs_f64(), if r.is_ok() { "ok " } else { "ERR" }, format!("{op:?}").chars().take(150).collect::<String>());
+            }
+        }
         "pools" => {
             let p = build_pools();
             println!("exprs={} holiday={} easter={} countries={} excluded={}", p.exprs.len(), p.holiday_exprs.len(), p.easter_exprs.len(), p.countries.len(), p.excluded.len());
+            println!("dense expressions: {}", p.dense_exprs.len());
             println!("border pairs: {:?}", p.border_pairs);
             println!("spacing variants: {}", p.spacing_variants.len());
             for (a, b) in p.spacing_variants.iter().take(12) {
